@@ -16,6 +16,7 @@ use std::sync::Arc;
 struct RepPeer {
     pub(crate) _identity: PeerIdentity,
     pub(crate) send_queue: ZmqFramedWrite,
+    pub(crate) connection_id: u64,
 }
 
 struct RepSocketBackend {
@@ -75,6 +76,7 @@ impl Socket for RepSocket {
 #[async_trait]
 impl MultiPeerBackend for RepSocketBackend {
     async fn peer_connected(self: Arc<Self>, peer_id: &PeerIdentity, io: FramedIo) {
+        let connection_id = io.connection_id;
         let (recv_queue, send_queue) = io.into_parts();
 
         self.peers
@@ -83,12 +85,13 @@ impl MultiPeerBackend for RepSocketBackend {
                 RepPeer {
                     _identity: peer_id.clone(),
                     send_queue,
+                    connection_id,
                 },
             )
             .await;
         self.fair_queue_inner
             .lock()
-            .insert(peer_id.clone(), recv_queue);
+            .insert_connection(peer_id.clone(), recv_queue, connection_id);
     }
 
     async fn peer_disconnected(&self, peer_id: &PeerIdentity) {
@@ -97,6 +100,22 @@ impl MultiPeerBackend for RepSocketBackend {
         }
         self.peers.remove_async(peer_id).await;
         self.fair_queue_inner.lock().remove(peer_id);
+    }
+}
+
+impl RepSocketBackend {
+    /// The peer closed the connection `connection_id`: drop its send half, unless the
+    /// peer has reconnected under the same identity in the meantime.
+    async fn peer_closed(&self, peer_id: &PeerIdentity, connection_id: u64) {
+        let removed = self
+            .peers
+            .remove_if_async(peer_id, |peer| peer.connection_id == connection_id)
+            .await;
+        if removed.is_some() {
+            if let Some(monitor) = self.monitor().lock().as_mut() {
+                let _ = monitor.try_send(SocketEvent::Disconnected(peer_id.clone()));
+            }
+        }
     }
 }
 
@@ -148,6 +167,10 @@ impl SocketSend for RepSocket {
 impl SocketRecv for RepSocket {
     async fn recv(&mut self) -> ZmqResult<ZmqMessage> {
         loop {
+            // Release what is still held for peers whose connection has ended.
+            for (peer_id, connection_id) in self.fair_queue.take_closed() {
+                self.backend.peer_closed(&peer_id, connection_id).await;
+            }
             match self.fair_queue.next().await {
                 Some((peer_id, Ok(message))) => match message {
                     Message::Message(mut m) => {
